@@ -11,6 +11,8 @@ from .token import Closure
 
 UNPICKLABLE_CALLS = {"open", "threading.Lock", "threading.RLock", "Lock", "RLock", "ThreadPoolExecutor", "ProcessPoolExecutor",
                      "iter", "map", "filter", "zip", "socket.socket", "sqlite3.connect", "tempfile.TemporaryFile"}
+_LOCAL_RESOURCES = {"threading.Condition", "threading.Semaphore", "threading.BoundedSemaphore", "threading.Event", "threading.local", "threading.Barrier",
+                    "multiprocessing.Lock", "weakref.ref", "weakref.WeakValueDictionary", "queue.Queue", "asyncio.Lock", "mmap.mmap"}
 NONDET_PREFIXES = ("random.", "numpy.random.", "time.", "uuid.", "secrets.", "datetime.datetime.now", "datetime.datetime.today")
 NONDET_EXACT = {"os.urandom", "builtins.id", "builtins.hash", "os.getpid", "threading.get_ident"}
 
@@ -85,6 +87,33 @@ def rule_pickle(ctx) -> RuleResult:
             for kind, node in sc.bind.get(v, []):
                 if kind == "assign" and (isinstance(node, ast.GeneratorExp) or (isinstance(node, ast.Call) and norm(node.func) in UNPICKLABLE_CALLS)):
                     res.report(f"{r}|free-unpicklable|{v}", f.where(), r, f"captures {v} = {norm(node)[:40]}, which cannot be pickled")
+    # attribute clause: the blueprint (Aggregation / Scan, bound into every chunk / combine / finalize task) and every other flox class instance
+    # travel by value; a process-local resource stored in one of their attributes -- anywhere in the package -- makes the task unpicklable
+    n_attr = 0
+    for q, f in sorted(prog.funcs.items()):
+        if isinstance(f.node, ast.Lambda):
+            continue
+        holders = blueprint_vars(f) | ({"self"} if f.params[:1] == ["self"] else set()) | ({"agg"} if not isinstance(f.node, ast.Lambda) else set())
+        if not holders:
+            continue
+        for a in walk_own(f.node):
+            if not isinstance(a, (ast.Assign, ast.AnnAssign)) or a.value is None:
+                continue
+            for t in (a.targets if isinstance(a, ast.Assign) else [a.target]):
+                if isinstance(t, ast.Attribute) and isinstance(t.value, ast.Name) and t.value.id in holders:
+                    n_attr += 1
+                    lazies = {"iter", "map", "filter", "zip"}       # unpicklable only when the iterator itself is what is stored
+                    bad = [norm(c)[:40] for c in ast.walk(a.value) if isinstance(c, ast.Call)
+                           and ((norm(c.func) in UNPICKLABLE_CALLS - lazies) or norm(c.func) in _LOCAL_RESOURCES or (norm(c.func) in lazies and c is a.value))]
+                    bad += [f"generator {norm(g)[:30]}" for g in ast.walk(a.value) if isinstance(g, ast.GeneratorExp) and not isinstance(getattr(g, "_parent", None), ast.Call)
+                            and a.value is g]
+                    if bad:
+                        res.report(f"{q}|unpicklable-attribute|{t.attr}", f.where(a), q,
+                                   f"'{norm(a)[:70]}' stores {bad[0]} in an attribute of an object that is bound into tasks: cloudpickle raises "
+                                   "\"cannot pickle '_thread.lock' object\" (or its like) for every task of the graph that carries it")
+    res.inst(f"attribute stores on blueprints / flox class instances scanned for process-local resources: {n_attr}", "attr-stores")
+    if n_attr < 12:
+        raise AnalysisError(f"only {n_attr} attribute stores on blueprints found (hand-confirmed on the pinned tree: 18)")
     return res
 
 
